@@ -114,3 +114,15 @@ def describe_short(case, obs):
     return dict(cfg=case['cfg'], program=case['prog'], outcomes=obs.get('outcomes'),
                 events=[e['ev'] for e in obs.get('trace', [])],
                 final_snapshot=snaps[-1] if snaps else None)
+
+
+def classify_corr(case, obs):
+    """Correspondence breaks caused by a row switch: after delete + add of one key in one flush the new
+    object is stale (it holds None where the row kept the old values), which violates the monitored
+    environment assumption `history flags agree with stored values` in later flushes too."""
+    for ev in obs.get('trace', []) or []:
+        if ev.get('ev') == 'flush':
+            for e in ev['ents']:
+                if e['kind'] == 1 and e['isnew']:
+                    return 'F-C01-row-switch'
+    return None
